@@ -1,5 +1,6 @@
 import BronVerif.Drive.Common
 import BronVerif.Model.LinAlg
+import BronVerif.Drive.C20Poly
 /-! Driver handlers for C20 (linear algebra and interpolation). -/
 namespace BronVerif.Drive.C20
 open BronVerif BronVerif.Drive BronVerif.LinAlg
@@ -91,6 +92,6 @@ def handle (op : String) (args : List String) (rhs : String) : Verdict :=
         spec "mul" (renderMat prod) rhs
       | _, _ => .unsupported "matrix"
     | _, _, _, _ => .unsupported "args"
-  | _, _ => .unsupported ("C20 op " ++ op)
+  | _, _ => C20Poly.handle op args rhs
 
 end BronVerif.Drive.C20
